@@ -424,6 +424,9 @@ pub enum Op {
     /// terminal: into_iter().collect()
     /// consume through IntoIter: 0 = next() loop with size_hint checks, 1.. = iterator adaptors (nth / skip / step_by / last / count)
     IntoIter(u8),
+    /// io::Read provided methods on a Reader: 0 read_to_end into a non-empty Vec, 1 read_exact(min(2,rem)), 2 read_exact(rem+1) must fail,
+    /// 3 read_to_string (Ok iff the rest is UTF-8), 4 bytes() iterator, 5 read_vectored into two buffers
+    ReadMore(u8),
     /// take the adapters apart with into_inner() (recursively) and compare every piece with the structural model
     Dismantle,
     /// advance the innermost buffer by one byte through get_mut() / first_mut() / last_mut(), bypassing the adapters
@@ -658,6 +661,99 @@ pub fn apply(root: &mut Root, m: &mut M, op: Op, stats: &mut Stats) -> Result<bo
                 }
             }
         }
+        Op::ReadMore(mode) => {
+            if let Root::Reader(r) = root {
+                match mode {
+                    0 => {
+                        let mut v = vec![0x77u8, 0x78];
+                        let res = guarded!(r.read_to_end(&mut v));
+                        match res {
+                            Ok(Ok(n)) => {
+                                if n != rem {
+                                    return Err(f12("read_to_end-count", format!("Reader::read_to_end into a Vec that already held 2 bytes returned Ok({}) with {} bytes available", n, rem)));
+                                }
+                                if v[..2] != [0x77, 0x78] || v[2..] != flat[..] {
+                                    return Err(f12("read_to_end-bytes", format!("Reader::read_to_end produced {:02x?}, want [77, 78] followed by {:02x?}", v, flat)));
+                                }
+                                m.advance(rem);
+                            }
+                            other => return Err(f12("read_to_end", format!("Reader::read_to_end failed or panicked with {} bytes available: {:?}", rem, other.map(|r| r.map_err(|e| e.to_string())).map_err(|_| "panic")))),
+                        }
+                    }
+                    1 | 2 => {
+                        let k = if mode == 1 { rem.min(2) } else { rem + 1 };
+                        let mut dst = vec![0xEEu8; k];
+                        let res = guarded!(r.read_exact(&mut dst));
+                        match res {
+                            Ok(Ok(())) if k <= rem => {
+                                if dst[..] != flat[..k] {
+                                    return Err(f12("read_exact-bytes", format!("Reader::read_exact({}) delivered {:02x?}, want {:02x?}", k, dst, &flat[..k])));
+                                }
+                                m.advance(k);
+                            }
+                            Ok(Err(_)) if k > rem => {
+                                // UnexpectedEof: everything available was consumed (std's contract leaves the amount unspecified, the
+                                // default implementation drains); the sequence ends here
+                                return Ok(false);
+                            }
+                            other => return Err(f12("read_exact", format!("Reader::read_exact({}) with {} bytes available: {:?}", k, rem, other.map(|r| r.map_err(|e| e.to_string())).map_err(|_| "panic")))),
+                        }
+                    }
+                    3 => {
+                        let mut st = String::from("ab");
+                        let res = guarded!(r.read_to_string(&mut st));
+                        let utf8 = std::str::from_utf8(&flat).is_ok();
+                        match res {
+                            Ok(Ok(n)) if utf8 => {
+                                if n != rem || st.as_bytes()[..2] != *b"ab" || st.as_bytes()[2..] != flat[..] {
+                                    return Err(f12("read_to_string", format!("Reader::read_to_string returned Ok({}) and {:?} with remaining {:02x?}", n, st, flat)));
+                                }
+                                m.advance(rem);
+                            }
+                            Ok(Err(_)) if !utf8 => return Ok(false),
+                            other => return Err(f12("read_to_string", format!("Reader::read_to_string (rest is UTF-8: {}) gave {:?}", utf8, other.map(|r| r.map_err(|e| e.to_string())).map_err(|_| "panic")))),
+                        }
+                    }
+                    4 => {
+                        let res = guarded!({
+                            let mut out = vec![];
+                            for b in std::io::Read::by_ref(r).bytes() {
+                                match b {
+                                    Ok(x) => out.push(x),
+                                    Err(_) => break,
+                                }
+                                if out.len() > rem + 2 {
+                                    break;
+                                }
+                            }
+                            out
+                        });
+                        match res {
+                            Ok(out) if out == flat => m.advance(rem),
+                            other => return Err(f12("reader-bytes-iter", format!("Read::bytes() over a Reader yielded {:?}, want {:02x?}", other.map_err(|_| "panic"), flat))),
+                        }
+                    }
+                    _ => {
+                        let (mut a, mut b) = (vec![0xEEu8; 1], vec![0xEEu8; 2]);
+                        let res = guarded!({
+                            let mut bufs = [std::io::IoSliceMut::new(&mut a), std::io::IoSliceMut::new(&mut b)];
+                            r.read_vectored(&mut bufs)
+                        });
+                        match res {
+                            Ok(Ok(n)) if n <= rem.min(3) && (n > 0 || rem == 0) => {
+                                let mut got = a.clone();
+                                got.extend_from_slice(&b);
+                                if got[..n] != flat[..n] || got[n..].iter().any(|&x| x != 0xEE) {
+                                    return Err(f12("read_vectored-bytes", format!("Reader::read_vectored returned {} and filled {:02x?}, want a prefix of {:02x?}", n, got, flat)));
+                                }
+                                m.advance(n);
+                            }
+                            other => return Err(f12("read_vectored", format!("Reader::read_vectored with {} bytes available: {:?}", rem, other.map(|r| r.map_err(|e| e.to_string())).map_err(|_| "panic")))),
+                        }
+                    }
+                }
+            }
+        }
         Op::Consume(k) => {
             if let Root::Reader(r) = root {
                 let fb = guarded!(r.fill_buf().map(|s| s.to_vec()));
@@ -814,6 +910,9 @@ fn ops_at(root_is_take: bool, reader: bool, rem: usize, cur_limit: Option<usize>
         for k in ks(rem) {
             v.push(Op::Read(k));
             v.push(Op::Consume(k));
+        }
+        for mode in 0..6u8 {
+            v.push(Op::ReadMore(mode));
         }
     }
     for mode in 0..=(if reader { 0 } else { N_ITER_MODES }) {
